@@ -571,6 +571,17 @@ def _fail_once(ex, st, sp):
 
 
 def vs_read(ex, fr, st, args, ins):
+    c0 = _conc(ex)
+    c0['lockdepth'] += 1
+    c0['stream_internal'] = c0.get('stream_internal', 0) + 1
+    try:
+        return _vs_read(ex, fr, st, args, ins)
+    finally:
+        c0['lockdepth'] -= 1
+        c0['stream_internal'] -= 1
+
+
+def _vs_read(ex, fr, st, args, ins):
     """(*vStream).Read: delivers the next bytes of the stream; may deliver fewer than requested (maxChunk) and may
     fail at stream offset failAt (then the bytes before failAt are still delivered together with the error)"""
     sp, p = args
@@ -578,7 +589,7 @@ def vs_read(ex, fr, st, args, ins):
     pos, reads, failAt, failErr, maxChunk, kind = ex.load(st, sp, typ)[:6]
     n = p.len
     c = _conc(ex)
-    if c['lockdepth'] == 0:
+    if c['lockdepth'] - c.get('stream_internal', 0) == 0:
         c['reads_unlocked'] += 1
     want = n
     if not (isinstance(maxChunk, int) and maxChunk <= 0):
@@ -592,10 +603,20 @@ def vs_read(ex, fr, st, args, ins):
         rest = int_binop('-', failAt, pos, 64, True)
         rest = int_ite(int_cmp('<', rest, 0, 64, True), 0, rest, 64)
         deliver = int_ite(failc, rest, want, 64)
-    if p.off == 0 and p.obj is not None:
+    if isinstance(p.off, int) and p.off == 0 and p.obj is not None:
         old = st.heap.get(p.obj)
         blk = StreamBlock(pos, n)
         blk.fresh = deliver
+        blk_kind[id(blk)] = kind
+        ex.__dict__.setdefault('blk_keep', []).append(blk)
+        st.heap[p.obj] = blk
+    elif p.obj is not None and isinstance(st.heap.get(p.obj), StreamBlock):
+        # read into buf[off:]: the buffer stays a block of consecutive stream bytes iff the new bytes continue it
+        old = st.heap[p.obj]
+        of = old.n if old.fresh is True else old.fresh
+        cont = b_and(int_cmp('==', p.off, of, 64, True), int_cmp('==', pos, int_binop('+', old.start, of, 64, True), 64, True))
+        blk = StreamBlock(old.start, old.n)
+        blk.fresh = int_ite(cont, int_binop('+', of, deliver, 64, True), int_ite(int_cmp('<', p.off, of, 64, True), p.off, of, 64), 64)
         blk_kind[id(blk)] = kind
         ex.__dict__.setdefault('blk_keep', []).append(blk)
         st.heap[p.obj] = blk
@@ -614,6 +635,17 @@ def vs_read(ex, fr, st, args, ins):
 
 
 def wf_readfull_general(ex, fr, st, args, ins):
+    c0 = _conc(ex)
+    c0['lockdepth'] += 1
+    c0['stream_internal'] = c0.get('stream_internal', 0) + 1
+    try:
+        return _wf_readfull_general(ex, fr, st, args, ins)
+    finally:
+        c0['lockdepth'] -= 1
+        c0['stream_internal'] -= 1
+
+
+def _wf_readfull_general(ex, fr, st, args, ins):
     """io.ReadFull by contract on a vStream that may fail / deliver short reads: either the buffer is filled with the
     next len(buf) bytes and (len, nil) is returned, or the stream fails first: the bytes before the failure point are
     delivered and a non-nil error is returned (io.EOF, io.ErrUnexpectedEOF or the source's own error)"""
@@ -633,7 +665,7 @@ def wf_readfull_general(ex, fr, st, args, ins):
     for g, a in reversed(alts):
         n = a.len if n is None else int_ite(g, a.len, n, 64)
     c = _conc(ex)
-    if c['lockdepth'] == 0:
+    if c['lockdepth'] - c.get('stream_internal', 0) == 0:
         c['reads_unlocked'] += 1
     if isinstance(failAt, int) and failAt < 0:
         ok, deliver = True, n
